@@ -23,10 +23,10 @@ for sid in sorted(os.listdir(root)):
     for p, r in (m.get('checks') or {}).items():
         if r.get('exit') == 1:
             sigs.append(f"{p}: " + ', '.join(s.split('/', 1)[1] for s in r.get('signatures', [])[:2]))
-    rows.append((sid, m['breaks_property'], first, '; '.join(sigs) or 'NOT CAUGHT'))
+    rows.append((sid, m['breaks_property'], first, '; '.join(sigs) or ('NOT CAUGHT (documented gap: old spans with repeated labels are outside the oracle)' if m.get('expected_miss') else 'NOT CAUGHT')))
 with open(os.path.join(root, 'INDEX.md'), 'w') as f:
     f.write('# Seeded changes (from independent sub-agents; each confirmed: applies, 240 baseline tests pass, demo fails with / passes without)\n\n')
-    f.write(f'{len(rows)} changes; caught: {sum(1 for r in rows if r[3] != "NOT CAUGHT")}.\n\n')
+    f.write(f'{len(rows)} changes; caught: {sum(1 for r in rows if not r[3].startswith("NOT CAUGHT"))}.\n\n')
     f.write('| id | property | mechanism (first line of the author\'s note) | caught by (check: first signatures) |\n|---|---|---|---|\n')
     for r in rows:
         f.write('| ' + ' | '.join(x.replace('|', '/') for x in r) + ' |\n')
